@@ -151,6 +151,30 @@ func solve(o *Obligation, dir string, timeout int, keep bool) *SolveResult {
 	}
 	launch(solvers[0])
 	pending := 1
+	// sound abstraction: nonlinear products as an uninterpreted function (unsat there => unsat in the reals)
+	if o.Goal != nil && hasNonlinear(all) {
+		termMu.Lock()
+		ah := make([]*Term, len(o.Hyps))
+		cache := map[*Term]*Term{}
+		for i, h := range o.Hyps {
+			ah[i] = abstractNL(h, cache)
+		}
+		ag := abstractNL(o.Goal, cache)
+		termMu.Unlock()
+		aq, _ := BuildQuery(preludeFor(usedUFs(append(append([]*Term(nil), ah...), ag))), ah, ag, false)
+		file := base + ".abs.smt2"
+		os.WriteFile(file, []byte(aq), 0o644)
+		sp := solverSpec{name: "z3-new-5.1.0+nlabs", cmd: solvers[0].cmd}
+		go func() {
+			first, txt, d := runSolver(ctx, sp, file, timeout)
+			if first != "unsat" {
+				first = "unknown" // a model of the abstraction means nothing
+			}
+			ch <- ans{first, txt, d, sp}
+		}()
+		pending++
+		defer os.Remove(file)
+	}
 	launchedAll := false
 	timer := time.NewTimer(1500 * time.Millisecond)
 	defer timer.Stop()
@@ -255,4 +279,112 @@ func solveAll(obls []*Obligation, dir string, timeout int, workers int, keep boo
 	}
 	close(ch)
 	wg.Wait()
+}
+
+var termMu sync.Mutex
+
+func init() {
+	declareUF("nlmul_R", []*Sort{SReal, SReal}, SReal)
+	declareUF("nlmul_I", []*Sort{SInt, SInt}, SInt)
+}
+
+func isNL(t *Term) bool {
+	if t.K != TApp || t.Op != "*" {
+		return false
+	}
+	n := 0
+	for _, a := range t.Args {
+		if a.rat == nil {
+			n++
+		}
+	}
+	return n >= 2
+}
+
+func hasNonlinear(ts []*Term) bool {
+	seen := map[*Term]bool{}
+	var rec func(t *Term) bool
+	rec = func(t *Term) bool {
+		if t == nil || seen[t] {
+			return false
+		}
+		seen[t] = true
+		if isNL(t) {
+			return true
+		}
+		for _, a := range t.Args {
+			if rec(a) {
+				return true
+			}
+		}
+		return false
+	}
+	for _, t := range ts {
+		if rec(t) {
+			return true
+		}
+	}
+	return false
+}
+
+func abstractNL(t *Term, cache map[*Term]*Term) *Term {
+	if r, ok := cache[t]; ok {
+		return r
+	}
+	if len(t.Args) == 0 {
+		return t
+	}
+	args := make([]*Term, len(t.Args))
+	changed := false
+	for i, a := range t.Args {
+		args[i] = abstractNL(a, cache)
+		if args[i] != a {
+			changed = true
+		}
+	}
+	var r *Term
+	if isNL(t) {
+		// keep literal factors, abstract the product of the rest
+		var lits, rest []*Term
+		for _, a := range args {
+			if a.rat != nil {
+				lits = append(lits, a)
+			} else {
+				rest = append(rest, a)
+			}
+		}
+		// canonical order for commutativity
+		for i := 1; i < len(rest); i++ {
+			for j := i; j > 0 && rest[j].id < rest[j-1].id; j-- {
+				rest[j], rest[j-1] = rest[j-1], rest[j]
+			}
+		}
+		acc := rest[0]
+		for _, b := range rest[1:] {
+			nm := "nlmul_R"
+			if t.S == SInt {
+				nm = "nlmul_I"
+			}
+			declareUF(nm, []*Sort{t.S, t.S}, t.S)
+			acc = App(nm, t.S, acc, b)
+		}
+		r = acc
+		for _, l := range lits {
+			r = App("*", t.S, l, r)
+		}
+	} else if changed {
+		if t.K == TQuant {
+			nt := newTerm(TQuant, t.Op, SBool, args[0])
+			nt.Bound = t.Bound
+			nt.Pats = t.Pats
+			nt.hasBound = t.hasBound
+			r = nt
+		} else {
+			r = App(t.Op, t.S, args...)
+		}
+	} else {
+		r = t
+	}
+	cache[t] = r
+	return r
 }
